@@ -29,7 +29,7 @@ try:
     # demonstration: copy every *_test.go of the seed dir to the package named in the demo command
     demo = meta.get("demo", "")
     copies = re.findall(r"cp\s+\S*/([\w.]+_test\.go)\s+(\S+)", demo)
-    tests = re.findall(r"go test (.*?)(?:\s+#|$|&&|;)", demo)
+    tests = re.findall(r"go test (.*?)(?:\s+#|\s{2,}|\s+\(|$|&&|;)", demo)
     def local(dst):
         # demo commands name the seeding agent's own worktree; redirect into ours
         dst = re.sub(r"^/tmp/wt/seed\d?-C\d\d/", "", dst)
